@@ -171,7 +171,7 @@ theorem seal_reach12 (g v k rk : List Nat) (t : Nat) (dst nonce pt aad tmp : Lis
     (label_findPc seal_labels (name := "tag.copy8") (by decide)) (label_findPc seal_labels (name := "tag.copy4") (by decide))
     (label_findPc seal_labels (name := "tag.copy2") (by decide)) (label_findPc seal_labels (name := "tag.copy1") (by decide))
     (label_findPc seal_labels (name := "tag.copyEnd") (by decide))
-    (fun d t => fmem "plaintext" false rk d nonce pt aad t) 77309411328 dst.length 94489280512 lm.m2 (by omega) (by decide)
+    (fun d t => fmem "plaintext" false rk d nonce pt aad t) 77309411328 dst.length 94489280512 32 (by decide) lm.m2 (by omega) (by decide)
     p6 (hKey rk) (e.gh.of_keepsM kp (by decide)) (kp.syms.trans e.pc.syms) _ tc6 hdc6 htc6 (by show s6.mem = _; exact hm6)
     aad.length pt.length t pt.length _ (unlanes 8 (encB rk jb)) g67 g69 (by omega) (by omega) g613 g614 ht (by omega) g66
     (by rw [kp.v 21 (by decide)]; exact e.acc) e.acclt
